@@ -327,6 +327,83 @@ theorem seek_refused_untouched (s : State) (off : Int) (w : Whence)
     · have : s.canSeek = false := by simpa using hcs
       simp [hf', this]
 
+theorem clientSeek_head_fail (s : State) (w : Whence) (off : Int) (a : Int) (hs : s.hasSeeker = true)
+    (hh : s.seeks.head? = some a) (ha : a < 0) : (clientSeek s w off).1 = a := by
+  unfold clientSeek
+  simp [hs, hh, ha]
+
+theorem walkProbe_head_fail (stopAt : Option Int) (left c : Nat) (s : State) (a : Int) (hs : s.hasSeeker = true)
+    (hh : s.seeks.head? = some a) (ha : a < 0) : ∃ s', walkProbe stopAt left c s = .fail a s' := by
+  have hf := switchTo_filt s c
+  have hq := (switchTo_cache s c).2.2
+  have h1 := clientSeek_head_fail (switchTo s c) .end_ 0 a (by rw [hf.hasSeeker]; exact hs) (by rw [hq]; exact hh) ha
+  cases left <;>
+  · unfold walkProbe
+    simp only []
+    rw [if_pos (by rw [h1]; exact ha), h1]
+    exact ⟨_, rfl⟩
+
+/-- **A failing seek callback is reported**: if the callback fails at its next invocation with
+code `a < 0`, the seek request returns `a` (whatever the target), and `position` stays. -/
+theorem seek_callback_fault_reported (s : State) (off : Int) (w : Whence) (a : Int) (hc : CacheOk s)
+    (hs : s.hasSeeker = true) (hcs : s.canSeek = true) (hf : s.fatal = false) (hw : w ≠ .other)
+    (hh : s.seeks.head? = some a) (ha : a < 0) :
+    (RA.seek s off w).1 = a := by
+  have hne := hc.ne
+  have key : ∀ (stopAt : Option Int), ∃ c1 s1, walkKnown stopAt (s.nodes.length - 1) 0 s = .at_ c1 s1 ∧
+      ∃ s2, walkProbe stopAt (s.nodes.length - 1 - c1) c1 s1 = .fail a s2 := by
+    intro stopAt
+    obtain ⟨c1, s1, e1, _, _, _, _, _, e7, e8⟩ :=
+      walkKnown_spec stopAt (s.nodes.length - 1) 0 s hc (known_zero s hc) (passed_zero _ _) (by omega)
+    exact ⟨c1, s1, e1, walkProbe_head_fail stopAt _ c1 s1 a (by rw [e7.hasSeeker]; exact hs)
+      (by rw [e8.2.2.1]; exact hh) ha⟩
+  unfold RA.seek
+  simp only [hf, hcs, Bool.false_eq_true, if_false, Bool.not_true]
+  cases w with
+  | set =>
+    obtain ⟨c1, s1, e1, s2, e2⟩ := key (some off)
+    simp [seekSet, e1, e2]
+  | cur =>
+    obtain ⟨c1, s1, e1, s2, e2⟩ := key (some (off + s.position))
+    simp [seekSet, e1, e2]
+  | end_ =>
+    obtain ⟨c1, s1, e1, s2, e2⟩ := key none
+    simp [seekEnd, e1, e2]
+  | other => exact absurd rfl hw
+
+/-- "A refused seek leaves the stream where it was" — what a caller that probes and falls back
+relies on. -/
+def FailedSeekLeavesStream : Prop :=
+  ∀ (nodes : List (List Nat)) (blk : Nat → Nat → Nat → Nat) (off : Int) (w : Whence), nodes ≠ [] →
+    (RA.seek (openSeekable nodes blk .eof [] true) off w).1 < 0 →
+    remaining (RA.seek (openSeekable nodes blk .eof [] true) off w).2 = remaining (openSeekable nodes blk .eof [] true)
+
+/-- **Finding (open): it does not.**  Volumes of 5 and 3 bytes, nothing read yet, a seek to offset 9
+(one behind the end): it is refused (ARCHIVE_FATAL), `position` is still 0 and `fatal` is not
+set — but the client has been switched to the last volume and moved to its end to learn the
+sizes, so the 8 bytes that were ahead are gone: the next read-ahead reports end of file.  With
+data buffered the buffered bytes are followed by bytes from the other place (replayed on the
+real code by the harness, known finding "seek-failure-desync"). -/
+theorem failed_seek_leaves_stream_false : ¬ FailedSeekLeavesStream := by
+  intro h
+  have := h [[1, 2, 3, 4, 5], [6, 7, 8]] (fun _ _ _ => 2) 9 .set (by simp) (by decide +kernel)
+  revert this
+  decide +kernel
+
+/-- The same refused seek in detail: reported, position and `fatal` unchanged, stream lost. -/
+example : (RA.seek (openSeekable [[1, 2, 3, 4, 5], [6, 7, 8]] (fun _ _ _ => 2) .eof [] true) 9 .set).1 = -30 ∧
+    (RA.seek (openSeekable [[1, 2, 3, 4, 5], [6, 7, 8]] (fun _ _ _ => 2) .eof [] true) 9 .set).2.position = 0 ∧
+    (RA.seek (openSeekable [[1, 2, 3, 4, 5], [6, 7, 8]] (fun _ _ _ => 2) .eof [] true) 9 .set).2.fatal = false ∧
+    remaining (RA.seek (openSeekable [[1, 2, 3, 4, 5], [6, 7, 8]] (fun _ _ _ => 2) .eof [] true) 9 .set).2 = [] ∧
+    remaining (openSeekable [[1, 2, 3, 4, 5], [6, 7, 8]] (fun _ _ _ => 2) .eof [] true) = [1, 2, 3, 4, 5, 6, 7, 8] := by
+  refine ⟨by decide +kernel, by decide +kernel, by decide +kernel, by decide +kernel, by decide +kernel⟩
+
+/-- Non-vacuity of `seek_never_silent` / `seek_callback_fault_reported`: a three-node source
+whose seek callback fails with code -7 at its first invocation. -/
+example : ({ openSeekable [[1, 2, 3], [], [4, 5, 6, 7]] (fun _ _ _ => 2) .eof [] true with seeks := [-7] } : State).seeks.head? = some (-7) ∧
+    (RA.seek { openSeekable [[1, 2, 3], [], [4, 5, 6, 7]] (fun _ _ _ => 2) .eof [] true with seeks := [-7] } 2 .set).1 = -7 :=
+  ⟨rfl, by decide +kernel⟩
+
 inductive Op | ahead (min : Nat) | consume (n : Int) | seek (off : Int) (w : Whence)
 
 /-- Windows handed out over a sequence of operations. -/
